@@ -44,6 +44,11 @@ ELEM_SCALAR = {"sempler.utils.sort": {"L", "order"}, "sempler.utils.subsets": {"
                "sempler.utils.all_but": {"k"}}
 
 
+# parameters documented as Python containers *of arrays* (a list with one sample per environment): `.copy()` / list(...) of such a
+# container is shallow - the arrays inside are still the caller's
+CONTAINER_PARAMS = {"sempler.utils.split_data": {"data"}, "sempler.semi.BayesianNetwork.__init__": {"data"}, "sempler.semi.DRFNet.__init__": {"data"}}
+
+
 def caller_owned(labels):
     return {l for l in labels if isinstance(l, tuple)}
 
@@ -538,6 +543,8 @@ def analyse_entry(O, func):
             bound[p] = OV([IMM], kind="int")
         elif p in ELEM_SCALAR.get(func.qname, ()):
             bound[p] = OV([("P", p)], elems=IMMV)
+        elif p in CONTAINER_PARAMS.get(func.qname, ()):
+            bound[p] = OV([("P", p)], elems=OV([("PE", p)]))
         else:
             bound[p] = OV([("P", p)], elems=None)
         d = func.defaults.get(p)
